@@ -728,11 +728,11 @@ Theorem C04_cp_mode_dot_copy_fresh : forall (F : Type) (Op : fops F) (h : heap) 
   exists w' fs', cp_mode_dot Op (operand_w Op (deref h r)) (operand_fs (deref h r)) x mode kd = Ok (w', fs') /\
      cpo_fs (read_obj h' o) = fs' /\ cpo_shape (read_obj h' o) = cp_shape fs' /\
      cpo_w (read_obj h' o) = match ref_w h r with Some _ => w' | None => ones Op (cp_rank fs') end.
-Proof. exact @cp_mode_dot_h_copy_fresh. Qed.
+Proof. exact @cp_mode_dot_h_copy_value. Qed.
 Print Assumptions C04_cp_mode_dot_copy_fresh.
 
 (* end to end on the heap: copy=True, a vector contracted -- whatever the aliasing among the caller's arrays the result's entries are the
-   mode product of what the operand denoted (exactly the statement that C04_cp_mode_dot_inplace_alias_refuted refutes for copy=False) *)
+   mode product of what the operand denoted (the statement that failed for copy=False before /repo 93a737c, see C04_before_93a737c_inplace_alias) *)
 Theorem C04_cp_mode_dot_copy_contract_entry : forall (F : Type) (Op : fops F),
   ring_theory (f0 Op) (f1 Op) (fadd Op) (fmul Op) (fsub Op) (fopp Op) (@eq F) ->
   forall (h : heap) r v k h' o idx' l,
@@ -757,50 +757,108 @@ Theorem C04_cp_mode_dot_copy_history : forall (F : Type) (Op : fops F) ops (h : 
 Proof. exact @run_ops_frame. Qed.
 Print Assumptions C04_cp_mode_dot_copy_history.
 
-(* copy=False, whatever the aliasing: an array the caller holds keeps its value or is owned by the result *)
-Theorem C04_cp_mode_dot_inplace_no_silent_clobber : forall (F : Type) (Op : fops F) (h : heap) r x mode kd h' o,
-  wf_ref h r -> cp_mode_dot_h Op h r false x mode kd = Ok (h', o) -> no_silent_clobber h h' o.
-Proof. exact @cp_mode_dot_h_no_silent_clobber. Qed.
-Print Assumptions C04_cp_mode_dot_inplace_no_silent_clobber.
+(* copy=False (the default) on the CURRENT tree: the product of a contraction goes to a fresh array; the result reads back as the pure
+   model's answer WHATEVER the aliasing in the caller's factor list, and no array is ever overwritten (every array that existed is
+   still there with its value) *)
+Theorem C04_cp_mode_dot_inplace_value : forall (F : Type) (Op : fops F) (h : heap) r x mode kd h' o,
+  wf_ref h r -> cp_mode_dot_h Op h r false x mode kd = Ok (h', o) ->
+  (exists a, h_arr h' = h_arr h ++ a) /\
+  exists w' fs', cp_mode_dot Op (operand_w Op (deref h r)) (operand_fs (deref h r)) x mode kd = Ok (w', fs') /\
+     cpo_fs (read_obj h' o) = fs' /\ cpo_shape (read_obj h' o) = cp_shape fs' /\
+     cpo_w (read_obj h' o) = match ref_w h r with Some _ => w' | None => ones Op (cp_rank fs') end.
+Proof. exact @cp_mode_dot_h_fresh_value. Qed.
+Print Assumptions C04_cp_mode_dot_inplace_value.
 
-(* copy=False: GENUINE DEFECT in tensorly (known finding cp_mode_dot_inplace_alias).  `factors[mode] *= factor` updates an
-   array in place; when the factor list names that array under another remaining mode as well (symmetric tensors: [A, A, B]),
-   the other mode changes too and the result is not the mode product.  Witness: entry [0,0] is 509 instead of 49. *)
-Theorem C04_cp_mode_dot_inplace_alias_refuted :
+(* ... hence, end to end: a vector contracted with copy=False gives the mode product of what the operand denoted, whatever the aliasing *)
+Theorem C04_cp_mode_dot_inplace_contract_entry : forall (F : Type) (Op : fops F),
+  ring_theory (f0 Op) (f1 Op) (fadd Op) (fmul Op) (fsub Op) (fopp Op) (@eq F) ->
+  forall (h : heap) r v k h' o idx' l,
+  wf_ref h r -> ref_w h r = Some l ->
+  cp_mode_dot_h Op h r false (OpVec v) k false = Ok (h', o) ->
+  S (length idx') = length (operand_fs (deref h r)) ->
+  length (operand_w Op (deref h r)) <= ncols (nth k (operand_fs (deref h r)) []) ->
+  cpo_shape (read_obj h' o) = remove_nth k (cp_shape (operand_fs (deref h r))) /\
+  cp_entry Op (cpo_w (read_obj h' o)) (cpo_fs (read_obj h' o)) idx' =
+  sumn Op (length (nth k (operand_fs (deref h r)) []))
+       (fun i => fmul Op (vget Op v i) (cp_entry Op (operand_w Op (deref h r)) (operand_fs (deref h r)) (insert_at k i idx'))).
+Proof. exact @cp_mode_dot_h_inplace_contract_entry. Qed.
+Print Assumptions C04_cp_mode_dot_inplace_contract_entry.
+
+(* BEFORE /repo 93a737c (kept as documentation; model cp_mode_dot_h_before, selected by the harness only if the source still has the
+   in-place update): `factors[mode] *= factor` changed every mode naming the same array -- [A, A, B] gave entry 509 instead of 49 *)
+Example C04_before_93a737c_inplace_alias :
   exists h' o w' fs',
-    cp_mode_dot_h Zops alias_heap (RTuple (Some 0) 0) false (OpVec [1; 2]%Z) 2 false = Ok (h', o) /\
+    cp_mode_dot_h_before Zops alias_heap (RTuple (Some 0) 0) false (OpVec [1; 2]%Z) 2 false = Ok (h', o) /\
     cp_mode_dot Zops (operand_w Zops (deref alias_heap (RTuple (Some 0) 0))) (operand_fs (deref alias_heap (RTuple (Some 0) 0)))
                 (OpVec [1; 2]%Z) 2 false = Ok (w', fs') /\
     cp_entry Zops w' fs' [0; 0] = 49%Z /\
     cp_entry Zops (cpo_w (read_obj h' o)) (cpo_fs (read_obj h' o)) [0; 0] = 509%Z /\
     wf_ref alias_heap (RTuple (Some 0) 0).
 Proof. exact cp_mode_dot_h_inplace_alias_witness. Qed.
-Print Assumptions C04_cp_mode_dot_inplace_alias_refuted.
 
-(* ... and the restricted statement that does hold: the result reads as the pure model's answer provided the array that absorbs
-   a contracted vector in place is named by ONE remaining entry of the factor list only, and is not the weights array *)
-Theorem C04_cp_mode_dot_inplace_value_partial : forall (F : Type) (Op : fops F) (h : heap) r x mode kd h' o,
-  wf_ref h r ->
-  (forall l, ref_w h r = Some l -> ~ In l (lst h (ref_fs h r))) ->
-  (is_contract x kd = true -> forall j, j < length (remove_nth mode (lst h (ref_fs h r))) -> j <> pred mode ->
-      nth j (remove_nth mode (lst h (ref_fs h r))) 0 <> nth (pred mode) (remove_nth mode (lst h (ref_fs h r))) 0) ->
-  cp_mode_dot_h Op h r false x mode kd = Ok (h', o) ->
-  exists w' fs', cp_mode_dot Op (operand_w Op (deref h r)) (operand_fs (deref h r)) x mode kd = Ok (w', fs') /\
-     cpo_fs (read_obj h' o) = fs' /\ cpo_shape (read_obj h' o) = cp_shape fs' /\
-     cpo_w (read_obj h' o) = match ref_w h r with Some _ => w' | None => ones Op (cp_rank fs') end.
-Proof. exact @cp_mode_dot_h_inplace_value. Qed.
-Print Assumptions C04_cp_mode_dot_inplace_value_partial.
+(* the cached shape attribute: every object a mode product returns has a consistent cache; on a consistent object the cached-shape
+   test never changes the verdict; item assignment keeps the OLD attribute (consistent exactly when the new factors have the old
+   mode sizes -- otherwise the stale attribute makes later calls raise: C03's known finding wrapper_setitem_stale_cache_cp) *)
+Theorem C04_cp_mode_dot_result_cache_consistent : forall (F : Type) (Op : fops F) (h : heap) r copy x mode kd h' o,
+  wf_ref h r -> cp_mode_dot_h Op h r copy x mode kd = Ok (h', o) -> cache_consistent h' o.
+Proof. exact @cp_mode_dot_h_result_consistent. Qed.
+Print Assumptions C04_cp_mode_dot_result_cache_consistent.
 
-(* the REPAIRED tree (candidate patch: the product goes to a fresh array; the harness reads off the current source which variant
-   applies): copy=False reads as the pure model's answer whatever the aliasing, and no array is ever overwritten *)
-Theorem C04_cp_mode_dot_repaired_value : forall (F : Type) (Op : fops F) (h : heap) r x mode kd h' o,
-  wf_ref h r -> cp_mode_dot_h_fresh Op h r false x mode kd = Ok (h', o) ->
-  (exists a, h_arr h' = h_arr h ++ a) /\
-  exists w' fs', cp_mode_dot Op (operand_w Op (deref h r)) (operand_fs (deref h r)) x mode kd = Ok (w', fs') /\
-     cpo_fs (read_obj h' o) = fs' /\ cpo_shape (read_obj h' o) = cp_shape fs' /\
-     cpo_w (read_obj h' o) = match ref_w h r with Some _ => w' | None => ones Op (cp_rank fs') end.
-Proof. exact @cp_mode_dot_h_fresh_value. Qed.
-Print Assumptions C04_cp_mode_dot_repaired_value.
+Theorem C04_cache_consistent_guard : forall (F : Type) (Op : fops F) (h : heap) o x mode kd w' fs',
+  cache_consistent h o ->
+  cp_mode_dot Op (operand_w Op (deref h (RObject o))) (operand_fs (deref h (RObject o))) x mode kd = Ok (w', fs') ->
+  guard h (RObject o) mode = true.
+Proof. exact @cache_consistent_guard. Qed.
+Print Assumptions C04_cache_consistent_guard.
+
+Theorem C04_setitem_factors_read : forall (F : Type) (h : heap (F:=F)) o fl' h', o < length (h_obj h) -> setitem_h h o 1 fl' = Ok h' ->
+  read_obj h' o = mk_cpobj (c_shape (obj h o)) (read_vec h (c_w (obj h o))) (read_fs h (lst h fl')) /\
+  (cache_consistent h' o <-> c_shape (obj h o) = cp_shape (read_fs h (lst h fl'))) /\
+  h_arr h' = h_arr h /\ h_lst h' = h_lst h.
+Proof. exact @setitem_factors_read. Qed.
+Print Assumptions C04_setitem_factors_read.
+
+(* the transforms whose answer is all fresh (cp_normalize, cp_flip_sign, cp_permute_factors, cp_copy) and the object method
+   CPTensor.normalize(inplace) on the heap: for EVERY heap nothing existing is touched, the result owns fresh locations only, is a
+   well-formed reference with a consistent cache and reads as the pure model's answer *)
+Theorem C04_fresh_result : forall (F : Type) (Op : fops F) (h : heap) w' fs' h' o, fresh_result Op h w' fs' = Ok (h', o) ->
+  extends h h' /\ o = length (h_obj h) /\ (forall l, In l (owned h' o) -> length (h_arr h) <= l) /\
+  wf_ref h' (RObject o) /\ read_obj h' o = mk_cpobj (cp_shape fs') w' fs' /\ cp_validb (Some w') fs' = true.
+Proof. exact @fresh_result_spec. Qed.
+Print Assumptions C04_fresh_result.
+
+Theorem C04_cp_flip_sign_heap : forall (F : Type) (Op : fops F) summ (h : heap) r mode h' o, cp_flip_sign_h Op summ h r mode = Ok (h', o) ->
+  exists w' fs', cp_flip_sign Op summ (operand_w Op (deref h r)) (operand_fs (deref h r)) mode = Ok (w', fs') /\
+    extends h h' /\ o = length (h_obj h) /\ (forall l, In l (owned h' o) -> length (h_arr h) <= l) /\
+    wf_ref h' (RObject o) /\ read_obj h' o = mk_cpobj (cp_shape fs') w' fs'.
+Proof. exact @cp_flip_sign_h_spec. Qed.
+Print Assumptions C04_cp_flip_sign_heap.
+
+Theorem C04_cp_permute_heap : forall (F : Type) (Op : fops F) p (h : heap) r h' o, cp_permute_h Op p h r = Ok (h', o) ->
+  exists w' fs', cp_permute Op p (operand_w Op (deref h r)) (operand_fs (deref h r)) = Ok (w', fs') /\
+    extends h h' /\ o = length (h_obj h) /\ (forall l, In l (owned h' o) -> length (h_arr h) <= l) /\
+    wf_ref h' (RObject o) /\ read_obj h' o = mk_cpobj (cp_shape fs') w' fs'.
+Proof. exact @cp_permute_h_spec. Qed.
+Print Assumptions C04_cp_permute_heap.
+
+Theorem C04_cp_normalize_heap : forall (F : Type) (Op : fops F) tape (h : heap) r h' o, cp_normalize_h Op tape h r = Ok (h', o) ->
+  let wf' := cp_normalize Op tape (operand_w Op (deref h r)) (operand_fs (deref h r)) in
+  extends h h' /\ o = length (h_obj h) /\ (forall l, In l (owned h' o) -> length (h_arr h) <= l) /\
+  wf_ref h' (RObject o) /\ read_obj h' o = mk_cpobj (cp_shape (snd wf')) (fst wf') (snd wf').
+Proof. exact @cp_normalize_h_spec. Qed.
+Print Assumptions C04_cp_normalize_heap.
+
+(* CPTensor.normalize(inplace) (since /repo 9ada0b3): inplace=True returns the SAME object, now reading the normalised weights and
+   factors, every array that existed keeps its value; inplace=False returns a fresh object and leaves the operand's cell alone *)
+Theorem C04_cp_normalize_method_heap : forall (F : Type) (Op : fops F) tape (h : heap) o inplace h' o', o < length (h_obj h) ->
+  cp_normalize_method_h Op tape h o inplace = Ok (h', o') ->
+  let wf' := cp_normalize Op tape (operand_w Op (deref h (RObject o))) (operand_fs (deref h (RObject o))) in
+  (exists a, h_arr h' = h_arr h ++ a) /\ (exists l, h_lst h' = h_lst h ++ l) /\
+  cpo_w (read_obj h' o') = fst wf' /\ cpo_fs (read_obj h' o') = snd wf' /\
+  (inplace = true -> o' = o /\ cpo_shape (read_obj h' o') = c_shape (obj h o)) /\
+  (inplace = false -> length (h_obj h) < o' /\ cpo_shape (read_obj h' o') = cp_shape (snd wf') /\ obj h' o = obj h o).
+Proof. exact @cp_normalize_method_h_spec. Qed.
+Print Assumptions C04_cp_normalize_method_heap.
 
 (* tucker_mode_dot's copy flag on the heap: whatever the copy flag and the aliasing in the caller's factor list, no array and no core is
    ever overwritten and the returned references read as the pure model's answer; copy=True leaves the caller's lists alone and returns
@@ -814,14 +872,6 @@ Theorem C04_tucker_mode_dot_heap : forall (F : Type) (Op : fops F) (th : theap) 
   (copy = false -> fl' = fl /\ length (t_lst th') = length (t_lst th) /\ forall k, k <> fl -> tlst th' k = tlst th k).
 Proof. exact @tucker_mode_dot_h_spec. Qed.
 Print Assumptions C04_tucker_mode_dot_heap.
-
-(* an in-place update of one location reads back as an update of one slot when no other slot names that location *)
-Theorem C04_inplace_update_unique_slot : forall (B : Type) (d : B) (tbl : list B) v (ls : list nat) m,
-  m < length ls -> nth m ls 0 < length tbl ->
-  (forall j, j < length ls -> j <> m -> nth j ls 0 <> nth m ls 0) ->
-  map (fun l => nth l (set_nth (nth m ls 0) v tbl) d) ls = set_nth m v (map (fun l => nth l tbl d) ls).
-Proof. exact @map_set_nth_unique. Qed.
-Print Assumptions C04_inplace_update_unique_slot.
 
 (* non-vacuity: constructors accept / refuse; the same aliased operand with copy=True gives 49; hypotheses of the partial theorem hold on a
    heap with distinct arrays, where the in-place contraction gives the right entry *)
@@ -837,19 +887,19 @@ Example C04_round5_nonvacuous :
     = Ok (mk_tkobj [1; 2] [2; 1] (mk [2; 1] [1; 2]%Z) [[[2; 1]]; [[2]; [3]]]%Z) /\
   tucker_new (mk [2] [1; 2]%Z) [[[1; 0]; [1; 1]]%Z] = Err /\
   (exists h' o, cp_mode_dot_h Zops alias_heap (RTuple (Some 0) 0) true (OpVec [1; 2]%Z) 2 false = Ok (h', o) /\
-                cp_entry Zops (cpo_w (read_obj h' o)) (cpo_fs (read_obj h' o)) [0; 0] = 49%Z /\ o = 0 /\ owned h' o = [6; 3; 4]) /\
+                cp_entry Zops (cpo_w (read_obj h' o)) (cpo_fs (read_obj h' o)) [0; 0] = 49%Z /\ o = 0 /\ owned h' o = [6; 3; 7]) /\
   (let th := mk_theap [mk [2; 1] [1; 2]%Z] [[[1; 0]; [1; 1]]; [[2]; [3]]]%Z [[0; 1]] in
    twf th 0 0 /\ tucker_mode_dot_h Zops th 0 0 false (OpVec [1; 1]%Z) 0 true
      = Ok (mk_theap [mk [2; 1] [1; 2]%Z] [[[1; 0]; [1; 1]]; [[2]; [3]]; [[2; 1]]]%Z [[2; 1]], (0, 0))) /\
   (exists h' refs', run_ops Zops alias_heap [RTuple (Some 0) 0] [(0, OpVec [1; 2]%Z, 2, false); (1, OpMat [[1; 1]]%Z, 0, false); (0, OpVec [1; 1]%Z, 0, true)]
                       = Ok (h', refs') /\ refs' = [RTuple (Some 0) 0; RObject 0; RObject 1; RObject 2] /\
                     cpo_shape (read_obj h' 1) = [1; 2] /\ cpo_shape (read_obj h' 2) = [1; 2; 2]) /\
-  (exists h' o, cp_mode_dot_h_fresh Zops alias_heap (RTuple (Some 0) 0) false (OpVec [1; 2]%Z) 2 false = Ok (h', o) /\
+  (exists h' o, cp_mode_dot_h Zops alias_heap (RTuple (Some 0) 0) false (OpVec [1; 2]%Z) 2 false = Ok (h', o) /\
                 cp_entry Zops (cpo_w (read_obj h' o)) (cpo_fs (read_obj h' o)) [0; 0] = 49%Z /\ arr h' 1 = [[1; 2]; [3; 4]]%Z) /\
   (let h := mk_heap [[[1; 1]]; [[1; 2]; [3; 4]]; [[1; 2]; [3; 4]]; [[1; 1]; [2; 5]]]%Z [[1; 2; 3]] [] in
    exists h' o, cp_mode_dot_h Zops h (RTuple (Some 0) 0) false (OpVec [1; 2]%Z) 2 false = Ok (h', o) /\
                 cp_entry Zops (cpo_w (read_obj h' o)) (cpo_fs (read_obj h' o)) [0; 0] = 49%Z /\
-                arr h' 2 = [[5; 22]; [15; 44]]%Z /\ owned h' o = [0; 1; 2]).
+                arr h' 2 = [[1; 2]; [3; 4]]%Z /\ arr h' 4 = [[5; 22]; [15; 44]]%Z /\ owned h' o = [0; 1; 4]).
 Proof.
   cbv zeta. repeat (split; [vm_compute; reflexivity|]). split; [|split; [|split; [|split]]].
   - do 2 eexists. split; [vm_compute; reflexivity|]. repeat split; vm_compute; reflexivity.
@@ -857,5 +907,31 @@ Proof.
   - do 2 eexists. split; [vm_compute; reflexivity|]. repeat split; vm_compute; reflexivity.
   - do 2 eexists. split; [vm_compute; reflexivity|]. repeat split; vm_compute; reflexivity.
   - do 2 eexists. split; [vm_compute; reflexivity|]. repeat split; vm_compute; reflexivity.
+Qed.
+
+(* round 6 non-vacuity: item assignment with factors of another mode size leaves the shape attribute stale; a mode product on the stale
+   mode is then refused whichever size the operand has (cached-shape test / real row count), another mode still works; the in-place
+   normalize method returns the tensor itself, the other form a fresh object; cp_flip_sign on the heap owns fresh locations only *)
+Example C04_round6_nonvacuous :
+  let A := [[1; 2]; [3; 4]]%Z in let B := [[1; 0]; [0; 1]; [2; 2]]%Z in let A2 := [[1; 1]; [2; 0]; [0; 3]]%Z in
+  let h := mk_heap [[[1; 1]]; A; B; A2]%Z [[1; 2]; [3; 2]] [mk_cell [2; 3] 0 0] in
+  wf_ref h (RObject 0) /\ cache_consistent h 0 /\
+  exists h1, setitem_h h 0 1 1 = Ok h1 /\ ~ cache_consistent h1 0 /\
+    cp_mode_dot_h Zops h1 (RObject 0) true (OpMat [[1; 1; 1]]%Z) 0 false = Err /\
+    cp_mode_dot_h Zops h1 (RObject 0) true (OpMat [[1; 1]]%Z) 0 false = Err /\
+    (exists h2 o, cp_mode_dot_h Zops h1 (RObject 0) true (OpMat [[1; 1; 1]]%Z) 1 false = Ok (h2, o) /\ cpo_shape (read_obj h2 o) = [3; 1]) /\
+    (exists h2, cp_normalize_method_h Zops [[1; 1]; [1; 1]]%Z h 0 true = Ok (h2, 0) /\ cpo_fs (read_obj h2 0) = [A; B] /\ arr h2 1 = A) /\
+    (exists h2, cp_normalize_method_h Zops [[1; 1]; [1; 1]]%Z h 0 false = Ok (h2, 2) /\ obj h2 0 = obj h 0) /\
+    (exists h2, cp_flip_sign_h Zops (col_sum Zops) h (RObject 0) 1 = Ok (h2, 1) /\ owned h2 1 = [4; 5; 6]).
+Proof.
+  cbv zeta. split; [|split; [vm_compute; reflexivity|]].
+  - unfold wf_ref, lst, obj, ref_fs, ref_w. simpl. repeat split; try lia.
+    + intros l E; injection E as <-; lia.
+    + intros o E; injection E as <-; lia.
+  - eexists. split; [vm_compute; reflexivity|]. split; [vm_compute; discriminate|].
+    split; [vm_compute; reflexivity|]. split; [vm_compute; reflexivity|].
+    split; [do 2 eexists; split; vm_compute; reflexivity|].
+    split; [eexists; split; [vm_compute; reflexivity|split; vm_compute; reflexivity]|].
+    split; [eexists; split; vm_compute; reflexivity|]. eexists; split; vm_compute; reflexivity.
 Qed.
 
